@@ -22,7 +22,8 @@ REAL_VS_STUB = {"real": ["polyply.src.nonbond_engine.NonBondEngine (from_topolog
                 "stub": ["molecules are plain networkx graphs with resname/position attributes",
                          "topology is an object with .volumes/.bending only"]}
 PROBES = ["new_tree_opened", "tree_emptied", "concatenate_multi", "pair_across_boundary", "floor_hit",
-          "remove_undefined", "remove_repeated", "multi_tree_state", "force_pairs", "whitebox_views"]
+          "remove_undefined", "remove_repeated", "multi_tree_state", "force_pairs", "whitebox_views",
+          "world_A_shadow_runs", "overlap_verdict_shadowed", "concatenate"]
 
 
 def n_runs(tier):
@@ -52,7 +53,19 @@ def _rand_point(g, box, positioned, cut):
     return [_r6(g.uniform(0, box[i] * 0.999999)) for i in range(3)]
 
 
+WORLD_A_PROFILE = {"box_modes": ["dense", "cubic", "noncubic"], "faults": ["step", "start", "overlap"],
+                   "shapes": ["linear", "linear", "star", "comb", "ring"], "max_molecules": 12, "maxres": 12,
+                   "vsites": False, "max_atoms": 2}
+
+
 def gen_job(verif_seed, tier, index):
+    if index % 10 == 9:
+        # shadow model inside real gen_coords runs: every position the engine receives / drops / consolidates and a
+        # sample of its overlap verdicts are compared with the reference model (rewinds, retries, >10-residue chains)
+        from gen import jobgen
+        job, _st = jobgen.base_job(PROP + "A", verif_seed, tier, index, WORLD_A_PROFILE)
+        job["world"] = "A"
+        return job
     seed = run_seed(PROP, verif_seed, index)
     g = Streams(seed).gen
     ntypes = g.randint(1, 3)
@@ -170,6 +183,14 @@ def gen_job(verif_seed, tier, index):
 
 
 def run_job(job):
+    if job.get("world") == "A":
+        from worlds import placement_world
+        res = placement_world.run(job)
+        res["nontrivial"] = bool(res["probes"].get("overlap_verdict_shadowed")) and any(c in res["signature"] for c in "FENRX")
+        res["ntkey"] = res["digest"]
+        res["probes"]["world_A_shadow_runs"] = 1
+        res["sample"] = {"world": "A", "molecules": job["spec"]["molecules"], "opts": job["opts"]}
+        return res
     res = engine_world.run_history(job["cfg"], job["ops"], prop=PROP)
     ops = job["ops"]
     res["sample"] = {"box": job["cfg"]["box"], "sizes": job["cfg"]["sizes"],
@@ -181,6 +202,10 @@ def run_job(job):
 
 
 def reductions(job):
+    if job.get("world") == "A":
+        from gen import jobgen
+        yield from jobgen.reductions(job)
+        return
     ops = job["ops"]
     n = len(ops)
     size = max(1, n // 2)
